@@ -71,7 +71,7 @@ def rank_main():
     dist.barrier()
     with open(outfile, 'wb') as f:
         pickle.dump(dict(events=events, grads=[g.clone() for g in rec['grads']],
-                         rec={k: rec[k] for k in ('held', 'mem', 'assignment', 'layer_names', 'steps', 'loads') if k in rec}), f)
+                         rec={k: rec[k] for k in ('held', 'held_mid', 'mem', 'assignment', 'layer_names', 'steps', 'loads') if k in rec}), f)
     dist.destroy_process_group()
 
 
